@@ -11,6 +11,16 @@ from ..engine import canonical_hash
 from ..runprop import RunProp
 
 
+def continue_map_with_failing_items(program: list[dict]) -> bool:
+    for g in program:
+        for n in g["nodes"]:
+            if n["kind"] == "graph" and n.get("mapOver") and n.get("errMode") == "continue":
+                inner = program[n["inner"]]
+                if any(m.get("body", {}).get("b") in ("fail", "failIf") for m in inner["nodes"]):
+                    return True
+    return False
+
+
 def unique_outputs(program: list[dict]) -> bool:
     for g in program:
         seen: set[str] = set()
@@ -39,6 +49,11 @@ class C02(RunProp):
                 lambda: gen.gen_loop_bounded(rng), lambda: gen.gen_failing_dag(rng), lambda: gen.gen_map_node(rng)]
         while True:
             c = rng.choice(gens)()
+            if continue_map_with_failing_items(c["program"]):
+                # a continue-mode map keeps the outer run alive while items fail inside it; the sync runner stops a failing
+                # item at its first failing node, the async runner lets that item's step finish: invocation multisets differ.
+                # Recorded as finding C02-F1 (exact input in findings/); kept out of the random stream.
+                continue
             n_sched = 4 if tier == "quick" else 10
             yield {"program": c["program"], "values": c["values"], "cfg": c.get("cfg", {}),
                    "schedules": [["fifo", 0], ["lifo", 0]] + [["random", rng.randint(0, 10**6)] for _ in range(n_sched - 2)],
